@@ -100,6 +100,10 @@ Section Rel.
     | VSpread _ => false
     end.
 
+  (* an inlining scope: every entry is the literal of an emittable value *)
+  Definition mlit (m : smap) : Prop :=
+    forall x a, rec_get m x = Some a -> exists v, a = lit v /\ emit_ok v = true.
+
   Inductive vrel : value -> value -> Prop :=
   | R_num x : vrel (VNum x) (VNum x)
   | R_bool b : vrel (VBool b) (VBool b)
@@ -118,7 +122,7 @@ Section Rel.
       (forall x, In x (map arg_name ps) -> rec_get m x = None) ->
       rec_get sc "inputs" = None ->
       (forall x v a, rec_get sc x = Some v -> rec_get m x = Some a -> a = lit v /\ emit_ok v = true) ->
-      (forall x a, rec_get m x = Some a -> exists v, rec_get sc x = Some v /\ a = lit v /\ emit_ok v = true) ->
+      mlit m ->
       (forall x v, rec_get sc x = Some v -> rec_get m x = None -> ~ In x (map arg_name ps) ->
                    exists v', rec_get sc' x = Some v' /\ vrel v v') ->
       vrel (VLam id ps b sc) (VLam id' ps (subst true m b) sc').
@@ -336,8 +340,6 @@ Section Rel.
       + destruct (rec_get sc z) eqn:G; [discriminate|]. apply rec_get_None_notin in G. contradiction.
   Qed.
 
-  Definition mlit (m : smap) : Prop :=
-    forall x a, rec_get m x = Some a -> exists v, a = lit v /\ emit_ok v = true.
   Lemma mlit_closed m : mlit m -> lits_closed m.
   Proof.
     intros H y a E. destruct (H y a E) as (v & -> & Hv). split; [intros b; apply (lit_closed_ok v Hv b)|apply (lit_closed_ok v Hv [])].
